@@ -649,6 +649,10 @@ func (c *codeGen) createSnippet() {
 	ln := len(init)
 	if chance(t, 10, "createlen") {
 		ln = rapid.IntRange(0, len(init)+40).Draw(t, "createlenv")
+	} else if chance(t, 7, "createbig") {
+		// init-code sizes around the EIP-170 / EIP-3860 limits (the window beyond the
+		// copied code reads as zeros, i.e. STOP)
+		ln = pickInt(t, "createbigv", 24576, 24577, 32768, 49151, 49152, 49153)
 	}
 	c.a.Push(len(init)).PushLabel(label).Push(dst).Op(CODECOPY)
 	var v *uint256.Int
